@@ -1184,6 +1184,14 @@ def reduce_case(ctx, files, bins, cs, cpu, first, budget=120):
             if tries[0] >= budget:
                 break
             label, op, attr, args = macroexp.split_line(lines[i])
+            if label and op and op.upper() not in ('MACRO', 'EQU', 'SET') and tries[0] < budget:
+                # a label in front of a statement that may be incidental
+                cl = lines[:i] + [lines[i][len(label) + (1 if lines[i][len(label):len(label) + 1] == ':' else 0):]] + lines[i + 1:]
+                cand = dict(files)
+                cand[fname] = '\n'.join(cl)
+                if attempt(cand):
+                    lines = cl
+                    files = cand
             if not op or ',' not in args or op.upper() in ('IF', 'WHILE', 'IRPC', 'EQU', 'SET') or fixed(lines[i]):
                 continue
             try:
